@@ -1422,7 +1422,10 @@ namespace link_layer {
         timeout_value_          = read_16bit( &valid_connect_request_body[ 26 ] );
         connection_timeout_     = delta_time( timeout_value_ * 10000 );
 
-        return transmit_window_offset <= connection_interval_ && check_timing_paremeters();
+        // transmitWindowSize: 1.25 ms to the lesser of 10 ms and ( connInterval - 1.25 ms )
+        return !transmit_window_size_.zero()
+            && transmit_window_size_ < connection_interval_
+            && transmit_window_offset <= connection_interval_ && check_timing_paremeters();
     }
 
     template < class Server, template < std::size_t, std::size_t, class > class ScheduledRadio, typename ... Options >
